@@ -26,6 +26,18 @@ extern "C" void vh_c12_real_createid() {
     nixsym_reach("done");
 }
 
+// the id stream must depend on the operating system's entropy source: the real createId is run once per job with a different
+// draw of std::random_device (same clock); the driver compares the ids of the jobs - equal ids mean that ids are a function of
+// the wall-clock second alone, i.e. processes started within the same second collide.  (With the draw as a symbolic input the
+// Mersenne twister's 624-word initialisation is beyond the solver budget - tried, no verdict in 45 min - hence two concrete draws.)
+extern "C" void vh_c12_entropy() {
+    nixsym_declare_reach("done");
+    std::string a = util::createId(), b = util::createId();
+    nixsym_assert(well_formed_uuid(a) && well_formed_uuid(b) && a != b, "ids are well-formed and consecutive ids differ");
+    nixsym_trace_str("id", (a + b).c_str());
+    nixsym_reach("done");
+}
+
 // ids of all entities are well formed, pairwise distinct, and unchanged by any operation of the history menu
 #define N_OPS 17
 extern "C" void vh_c12_stable() {
